@@ -357,11 +357,11 @@ fn run(what: &str, max_ops: usize, max_facts: usize, ra: bool, check: &dyn Fn(&[
 }
 
 fn c08_tms_history_search() -> (bool, String) {
-    run("TruthMaintenanceSystem", 6, 5, false, &check_tms)
+    run("TruthMaintenanceSystem", crate::bound(6, 7), 5, false, &check_tms)
 }
 
 fn c08_engine_history_search() -> (bool, String) {
-    run("IncrementalEngine insert_explicit/insert/insert_logical/tms_mut().add_logical_justification/retract/retract from a rule action", 6, 4, true, &check_engine)
+    run("IncrementalEngine insert_explicit/insert/insert_logical/tms_mut().add_logical_justification/retract/retract from a rule action", crate::bound(6, 7), 4, true, &check_engine)
 }
 
 /// a few longer fixed shapes beyond the enumeration bound (7-9 operations, 6-7 facts), on both levels
